@@ -71,6 +71,20 @@ pub fn transcript_t(ops: &[Op], rules: &[usize], iters: usize, texts: Option<&[S
             out.push_str(&format!("match {pat}: {:?}\n", kv));
         }
     }
+    // multi-pattern matching: the returned substitutions in their returned order (a variable shared by two atoms is
+    // unified across the symmetries of its class: the order in which the open slots are tried must not follow a per-thread hasher)
+    for mp in ["?x == (h ?a), ?y == (k ?a ?b)", "?x == (k ?a ?b), ?y == (k ?b ?a)", "?x == (add ?a ?b), ?y == (h ?a)",
+               "?x == (h ?a), ?y == (h ?a)", "?x == (k ?a ?b), ?y == (add ?a ?c)", "?x == (k ?a ?a), ?y == (h ?a)"] {
+        if let Ok(p) = MultiPattern::<Main>::parse(mp) {
+            if let Ok(ms) = guarded(|| multi_ematch(&p, &eg)) {
+                for s in ms {
+                    let mut kv: Vec<(&String, &AppliedId)> = s.iter().collect();
+                    kv.sort_by_key(|(k, _)| (*k).clone());
+                    out.push_str(&format!("mmatch {mp}: {:?}\n", kv));
+                }
+            }
+        }
+    }
     // extraction
     let ex = Extractor::<Main, AstSize>::new(&eg, AstSize);
     for i in eg.ids() {
